@@ -68,12 +68,12 @@ def plan(prop, tier):
     elif prop == "C09":
         par("sequential", ("collect_vec", "collect_x", "count", "reduce", "find"), ["P_Sequential"], nts_=(1,), fans="Fans_find", css="Cs_all")
     elif prop == "C10":
-        par("find: early exit", ("find",), ["P_BoundedAfterSkip", "P_FirstMatch"], fans="Fans_find", srcs=("vec", "iterx") if q else ("vec", "iter", "iterx"), css="Cs_1_2_3" if not q else "Cs_1_2", NN_=(4 if q else 6))
+        par("find: early exit", ("find",), ["P_BoundedAfterSkip", "P_FirstMatch"], fans="Fans_find", srcs=("vec", "iterx"), css="Cs_1_2_3" if not q else "Cs_1_2", NN_=(4 if q else 5))
         P.append(("unbounded source: termination iff a match exists", "MC_FindInf.tla",
                   {"K": "= 5" if q else "= 7", "NW": "= 3", "C": "= 2", "PublishExit": "= TRUE"}, [], ["TerminatesIfMatch", "RunsForeverOtherwise", "NoPullAfterExit"]))
     elif prop == "C11":
         par("exact chunks", ("collect_vec", "find") if q else ("collect_vec", "count", "find"), ["P_ExactPulls", "P_DisjointPulls"], css="Cs_1_2_3", fans="Fans_012" if q else "Fans_find",
-            srcs=("vec", "iterx") if q else ("vec", "iter", "iterx"), NN_=(4 if q else 5), nts_=((3,) if q else None), live=not q)
+            srcs=("vec", "iterx") if q else ("vec", "iter", "iterx"), NN_=4, nts_=((3,) if q else None), live=not q)
         par("exact chunks across lag periods", ("count",), ["P_ExactPulls", "P_DisjointPulls", "P_ThreadBound"], nts_=(6,), NN_=(6 if q else 7), W_=6, fans="Fans_1", css="Cs_1_2", srcs=("vec",), live=False)
     elif prop == "C12":
         P.append(("builder state machine", "MC_ParApi.tla", {"Depth": "= 4" if not q else "= 3"}, ["TypeOK", "ParamsAreLastSet", "SequentialIffMax1"], []))
